@@ -28,6 +28,7 @@ ASSUMPTIONS = [
     "SQL Server ORDER BY .. OFFSET m ROWS [FETCH NEXT n ROWS ONLY]; Oracle [OFFSET m ROWS] [FETCH NEXT n ROWS ONLY]",
     "slice [a:b] means offset=a, limit=b (pinned by tests/test_selects.py)",
     "T-SQL forbids TOP together with OFFSET; that combination is not generated",
+    "T-SQL requires the ORDER BY items of a set operation to come from its select list (Msg 104): the neutral ordering of a paginated set operation is ORDER BY 1",
 ]
 
 LV, OV = 3, 2
@@ -130,7 +131,11 @@ def tail_grammar(cls, L, O, has_orderby, setop):
         return [t]
     if cls == "mssql":
         t = []
-        if not has_orderby:
+        if not has_orderby and setop:
+            # T-SQL: the ORDER BY items of a UNION / INTERSECT / EXCEPT must come from the select list (error 104), so the neutral
+            # ordering of a compound is a column position, not the constant subquery used for a plain SELECT
+            t += [W("ORDER"), W("BY"), ("num", "1")]
+        elif not has_orderby:
             t += [W("ORDER"), W("BY"), ("punct", "("), W("SELECT"), ("num", "0"), ("punct", ")")]
         t += [W("OFFSET"), Os if O is not None else ("ZERO",), W("ROWS")]
         if L is not None:
@@ -206,10 +211,10 @@ def check_one(cls, position, orderby, L, O, plan_steps, par):
     p0 = program(cls, position, orderby, [])
     p1 = program(cls, position, orderby, plan_steps)
     exec_ok = cls == "sqlite" and position in ("top", "from_sub", "setop_self") and (orderby or (L is None and O is None))
-    return check_pair(cls, p0, p1, L, O, orderby, par, exec_ok)
+    return check_pair(cls, p0, p1, L, O, orderby, par, exec_ok, setop=position == "setop_self")
 
 
-def check_pair(cls, p0, p1, L, O, orderby, par, exec_ok):
+def check_pair(cls, p0, p1, L, O, orderby, par, exec_ok, setop=False):
     """p1 is p0 plus the pagination calls (limit L, offset O) at one query node -> list of (failure kind, detail)"""
     out = []
     try:
@@ -260,12 +265,14 @@ def check_pair(cls, p0, p1, L, O, orderby, par, exec_ok):
             if nums != list(range(1, len(nums) + 1)):
                 out.append(("numbering", "%r" % s1))
     fails = []
-    for pat in tail_grammar(cls, L, O, orderby, False):
+    for pat in tail_grammar(cls, L, O, orderby, setop):
         f = match_tail(tail, pat, L, O, tailvals)
         if f is None:
             fails = []
             break
         fails.append(f)
+    if fails and cls == "mssql" and setop and any(t.kind == "word" and t.value == "SELECT" for t in tail):
+        fails = ["neutral_order_outside_select_list"]
     if fails:
         out.append((fails[0], "%s tail %r of %r (limit=%r offset=%r)" % (cls, " ".join(t.text for t in tail), s1, L, O)))
     if exec_ok and not out:
@@ -380,8 +387,11 @@ def check_two(case):
                                 ("outer", case["Lo"], case["Oo"], case["oo"], program2(case, with_outer=False))):
         if L is None and O is None:
             continue
-        for kind, detail in check_pair(cls, p0, full, L, O, ob, par, False):
+        for kind, detail in check_pair(cls, p0, full, L, O, ob, par, False, setop=case["pos"] == "setop" and level == "outer"):
             grp = "setop" if case["pos"] == "setop" and level == "outer" else "query"
+            if kind == "neutral_order_outside_select_list":
+                out.append((mksig(cls, "setop", kind), detail))  # one root cause, the same signature as in the enumerated family
+                continue
             out.append((mksig(cls, "two", grp, level, shape(L, O), kind), detail))
     if cls == "sqlite" and not out:
         want = model_rows(case)
@@ -408,6 +418,8 @@ def shape(L, O):
 
 def sig_of(cls, position, L, O, kind):
     grp = "setop" if position == "setop_self" else "query"
+    if kind == "neutral_order_outside_select_list":
+        return mksig(cls, "setop", kind)
     if grp == "setop" and cls in ("mssql", "oracle") and kind in ("keyword", "order", "extra_tokens"):
         # one root cause: _SetOperation always writes the generic LIMIT n OFFSET m
         return mksig(cls, "setop", "generic_limit_offset")
